@@ -18,49 +18,68 @@ SPEC = {
     ],
     "rule": ("confgen reflects over the Go config struct of every component registered by core/import, phttp/import and grpc/import "
              "(34 (kind, name) pairs + the pool struct + the CLI root struct) and draws valid CLI-level configs: 1-3 pools, each with a "
-             "gun / ammo / result / rps / startup section of a sampled component, every optional key given with probability 0.35, nested "
-             "structs (dial, answlog, auto-tag, shared-client, dial_options, monitoring.expvar ...), nested plugins (sink, source, "
-             "middlewares) and composite schedules (explicit and list form, nested twice). TestValid: config accepted, every section "
-             "decoded through the registry = registered default overlaid with exactly the given keys (independent reference), "
-             "documented http-gun defaults. TestMutations: one change (unknown/misspelt key at a sampled struct level; a "
-             "kind-incompatible value for a sampled key; a value violating the key's validate tag; a required key removed; a bad "
-             "plugin type name) must be rejected by DecodeAndValidate or by the first NewGun()/NewRPSSchedule() call. "
-             "TestPlaceholders: a sampled scalar literal is replaced by ${env:V} / ${property:file#key} (whole value, or embedded for "
-             "strings and durations) and must decode to the same configuration; unset variable / missing key / missing file must be "
-             "rejected. Depth: root and pool keys 0, component keys 1, nested struct / nested plugin / composite element keys >= 2. "
-             "Non-trivial = mutation (or, for TestValid, a given key) at depth >= 2, or a placeholder in a non-string field "
-             "(TestDiscardOverflowDefault, when the cli hook exists: generated YAML/JSON files with 1-3 pools read by the real CLI "
-             "reader, non-trivial = a pool without the discard_overflow key); distinct = hash of the case."),
+             "gun / ammo / result / rps / startup section of a sampled component, every optional key given with probability 0.35 (6% of "
+             "those null-valued), nested structs (dial, answlog, auto-tag, httptrace, shared-client, dial_options, source, log, "
+             "monitoring.expvar ...), nested plugins (sink, source, middlewares) and composite schedules (explicit and list form, nested "
+             "twice). TestValid: config accepted by DecodeAndValidate and by one call of every NewGun / NewRPSSchedule factory; root / "
+             "pool scalars and every section's config as the registry hands it to the constructor = default overlaid with exactly the "
+             "given keys (independent reference reading of the map); documented http-gun defaults of absent keys. TestMutations: one "
+             "change (unknown / misspelt key inserted, or a present optional key renamed to a typo, at a sampled struct level; a "
+             "kind-incompatible value for a sampled key, value class drawn first half of the time; a value violating the key's validate "
+             "tag; a required key removed; a bad, empty, non-string, foreign-kind or missing plugin type name) must be rejected with an "
+             "error (not a panic) by DecodeAndValidate or by the first NewGun()/NewRPSSchedule() call. TestPlaceholders: a scalar field "
+             "(value class drawn first; given or not, the literal is drawn by the field's generator; also elements of string lists) is "
+             "replaced by ${env:V} / ${property:file#key} (whole value, or embedded prefix+var+suffix for strings, durations, sizes, "
+             "levels) and must decode to the same configuration as the literal; unset variable / missing key / missing file / missing "
+             "#key and a variable holding text that is no value of the field (non-numeric, negative for unsigned, validate-tag "
+             "violation) must be rejected with an error. TestDiscardOverflowDefault: generated YAML / JSON files with 1-3 pools, each "
+             "with discard_overflow true / false / absent, read by the real CLI reader (cli.ReadConfigForVerif -> readConfig: viper "
+             "from the OS file system, defaulting, decode): DiscardOverflow = true when absent, the given value otherwise. Each test "
+             "first runs the fixed witness cases of the findings it made (plain regression cases once a finding is fixed). Depth: root "
+             "and pool keys 0, component keys and log / monitoring keys 1, nested struct / nested plugin / composite element keys >= 2. "
+             "Non-trivial = mutation (or, for TestValid, a given key) at depth >= 2, a placeholder in a non-string field, a pool "
+             "without the discard_overflow key; distinct = hash of the case."),
     "floors": {
         "TestValid/given_depth_ge_2": 0.4, "TestValid/pools_gt_1": 0.1, "TestValid/list_composite": 0.2, "TestValid/null_valued_key": 0.1,
-        "TestMutations/kind:unknown_key": 0.3, "TestMutations/kind:wrong_type": 0.15, "TestMutations/kind:constraint": 0.05,
-        "TestMutations/kind:missing": 0.05, "TestMutations/kind:bad_type": 0.05,
+        "TestMutations/kind:unknown_key": 0.25, "TestMutations/kind:wrong_type": 0.15, "TestMutations/kind:constraint": 0.05,
+        "TestMutations/kind:missing": 0.05, "TestMutations/kind:bad_type": 0.05, "TestMutations/op:rename": 0.01,
         "TestMutations/depth:0": 0.05, "TestMutations/depth:1": 0.15, "TestMutations/depth:2": 0.2, "TestMutations/depth:3": 0.01,
         "TestMutations/rejected_by:NewRPSSchedule": 0.03, "TestMutations/rejected_by:NewGun": 0.005,
         "TestPlaceholders/non_string_field": 0.4, "TestPlaceholders/src:env": 0.3, "TestPlaceholders/src:property": 0.3,
-        "TestPlaceholders/missing:unset_env": 0.05, "TestPlaceholders/missing:missing_key": 0.02,
-        "TestPlaceholders/missing:missing_file": 0.02, "TestPlaceholders/mode:embedded": 0.03,
+        "TestPlaceholders/missing:unset_env": 0.04, "TestPlaceholders/missing:missing_key": 0.02,
+        "TestPlaceholders/missing:missing_file": 0.02, "TestPlaceholders/mode:embedded": 0.03, "TestPlaceholders/mode:invalid_text": 0.03,
         "TestPlaceholders/class:int": 0.05, "TestPlaceholders/class:float": 0.03, "TestPlaceholders/class:bool": 0.05,
-        "TestPlaceholders/class:duration": 0.05, "TestPlaceholders/class:string": 0.1,
+        "TestPlaceholders/class:duration": 0.05, "TestPlaceholders/class:string": 0.1, "TestPlaceholders/depth:2": 0.1,
+        "TestDiscardOverflowDefault/some_pool_without_key": 0.3, "TestDiscardOverflowDefault/discard_overflow:given_true": 0.1,
+        "TestDiscardOverflowDefault/discard_overflow:given_false": 0.1, "TestDiscardOverflowDefault/format:yaml": 0.4,
+        "TestDiscardOverflowDefault/format:json": 0.15,
     },
     "required_classes": (["TestValid/comp:" + c for c in _COMPONENTS] + ["TestMutations/comp:" + c for c in _COMPONENTS]
-                         + ["TestMutations/comp:pool/pool", "TestMutations/comp:cli/root", "TestPlaceholders/comp:pool/pool"]),
+                         + ["TestMutations/comp:pool/pool", "TestMutations/comp:cli/root", "TestPlaceholders/comp:pool/pool",
+                            "TestPlaceholders/comp:cli/root"]),
     "manifest": {
         "technique": ("property-based testing (rapid) with a reflection-driven config generator / mutator; reference-overlay oracle for "
-                      "decoded configs, rejection oracle for mutations, metamorphic literal-vs-placeholder oracle"),
+                      "decoded configs, rejection oracle for mutations, metamorphic literal-vs-placeholder oracle, real CLI reader on "
+                      "generated config files"),
         "text": ("Valid configurations for every registered component are generated from the components' own config structs; the real "
                  "decoder (config.DecodeAndValidate into cli.DefaultConfig(), plugin hooks, lazily decoded factories invoked once) must "
                  "accept them, every section's decoded config (observed through plugin.New on the registered default) must equal the "
                  "default overlaid with the given keys, and each single mutation (unknown key at any struct level, wrongly typed value, "
-                 "validate-tag violation, missing required key, bad type name) must be rejected. Literal and ${env}/${property} variants "
-                 "must decode identically; unresolved placeholders must be rejected."),
-        "note": ("Float-for-int (truncated by mapstructure by design), numbers for durations / sizes (taken as ns / bytes), a string for "
-                 "a sink or source section (short form) and placeholders in `type` keys are outside the property's promises and not "
-                 "asserted. discard_overflow defaulting is checked by TestDiscardOverflowDefault (build tags verif,verifcli) once "
-                 "cli.ReadConfigForVerif exists. Scenario providers (http/scenario, grpc/scenario ammo) are not in the table."),
+                 "validate-tag violation, missing required key, bad type name) must be rejected with an error. Literal and "
+                 "${env}/${property} variants must decode identically; unresolved placeholders and placeholders resolving to text that "
+                 "is no value of the field must be rejected. The CLI reader must decode discard_overflow as true exactly when the key is "
+                 "absent from a pool of the file."),
+        "note": ("Float-for-int (truncated by mapstructure by design), numbers or digit-only text for durations / sizes / levels (taken "
+                 "as ns / bytes / level number), a string for a sink or source section (short form), placeholders in `type` keys, "
+                 "unknown placeholder kinds (${foo:bar} is left verbatim), `pools: []`, a composite without `nested`, and the "
+                 "never-enforced `valid:` tag of answlog.filter are outside the property's promises and not asserted. Exported default "
+                 "functions are the reference for defaults (only the http guns' documented defaults are transcribed from the docs). "
+                 "Scenario providers (http/scenario, grpc/scenario ammo) are not in the table. The effect of discard_overflow on a "
+                 "running pool is C04's subject; the subprocess cross-check sketched in DESIGN.md was not built."),
     },
     "assumptions": [
         "the component table in internal/confgen mirrors core/import, components/phttp/import and components/grpc/import (a registered config type that differs from the table fails the check)",
         "decoded component configs are observed via plugin.New(kind, name, fill) with a fill callback that runs config.DecodeAndValidate like pluginconfig's hook, then aborts construction",
+        "environment variables and the property files are process-global: every shard is its own process and evaluates its cases sequentially",
     ],
 }
